@@ -793,6 +793,9 @@ def load_outcome(load, ok_str) -> str:
     try:
         load()
     except ParserException as e:
+        if not isinstance(e.line_number, int) or isinstance(e.line_number, bool) or not isinstance(e.line, str):
+            # the error has the right class but ill-typed fields: report them as they are
+            return f"PE {type(e).__name__} illtyped line_number={type(e.line_number).__name__}:{e.line_number!r} line={type(e.line).__name__}:{e.line!r}"[:300]
         return f"PE {type(e).__name__} {e.line_number} {hx(e.line)}"
     except MemorySizeException as e:
         return f"ME size {e.size_in_words}"
@@ -878,6 +881,46 @@ def global_fingerprint() -> str:
 
 
 GLOBAL_BASELINE = global_fingerprint()      # taken when the harness imports the code, before any API call
+
+
+def _global_containers():
+    """The mutable containers behind `global_fingerprint` (dicts and lists), for save / restore in place."""
+    from architecture_simulator.isa.toy.toy_micro_program import MicroProgram
+    from architecture_simulator.isa.toy import toy_instructions as ti
+    from architecture_simulator.isa.riscv.riscv_parser import RiscvParser
+    from architecture_simulator.isa.toy.toy_parser import ToyParser
+    from architecture_simulator.settings.settings import Settings
+    cs = [MicroProgram._instr_mp_mapping, MicroProgram._instr_bool_list_mapping, MicroProgram.second_half_micro_program,
+          MicroProgram._signal_names, rvi.instruction_map, ti.instruction_map, RiscvParser._reg_mapping, Settings._settings,
+          ToyParser._address_mnemonics, ToyParser._no_address_mnemonics]
+    cs += [getattr(RiscvParser, a) for a in ("_reg_reg_reg_mnemonics", "_normal_i_type_mnemonics", "_mem_i_type_mnemonics", "_b_type_mnemonics",
+                                             "_s_type_mnemonics", "_u_type_mnemonics", "_csr_mnemonics", "_csr_i_mnemonics", "_reg_numbers",
+                                             "_directives", "_type_directives")]
+    return [c for c in cs if isinstance(c, (dict, list))]
+
+
+def _copy_table(c):
+    import copy
+    if isinstance(c, dict):
+        return {k: (copy.deepcopy(v) if isinstance(v, (list, dict, set)) else v) for k, v in c.items()}
+    return [copy.deepcopy(v) if isinstance(v, (list, dict, set)) else v for v in c]
+
+
+_GLOBAL_SAVED = [_copy_table(c) for c in _global_containers()]
+
+
+def global_restore() -> bool:
+    """Put the module/class-level tables back to their import-time contents (in place). True if the fingerprint is the
+    baseline again afterwards. The harness does this after a case changed one of them, so that every case starts from
+    the tables the code ships with and a change is attributed to each case that causes it."""
+    for c, saved in zip(_global_containers(), _GLOBAL_SAVED):
+        fresh = _copy_table(saved)
+        if isinstance(c, dict):
+            c.clear()
+            c.update(fresh)
+        else:
+            c[:] = fresh
+    return global_fingerprint() == GLOBAL_BASELINE
 
 
 def run_lines(lines: list[str]) -> list[str]:
